@@ -1054,10 +1054,83 @@ Proof.
   cbn. repeat split; try assumption. apply Forall_upd_nth; [exact F|]. intros x Hx. exact Hx.
 Qed.
 
+(* ---- two committers ------------------------------------------------------------------------ *)
+
+Lemma graph_apply_writes ws : forall s, graph (apply_writes s ws) = graph s.
+Proof.
+  induction ws as [|w ws IH]; intros s; [reflexivity|].
+  unfold apply_writes in *. cbn [fold_left]. rewrite IH. apply graph_apply_write.
+Qed.
+
+Lemma commit_graph_len s i loc f : length (graph s) <= length (graph (snd (commit s i loc f))).
+Proof.
+  unfold commit. destruct (nth_error (cos s) i) as [c|]; [|cbn; lia].
+  destruct (commit_plan s i c loc) as [e|ws]; [cbn; lia|].
+  destruct f as [k|]; [destruct (k <? length ws)|]; cbn [snd]; rewrite (graph_apply_writes _ _); cbn [graph];
+    rewrite app_length; lia.
+Qed.
+
+Lemma good_commit_race s i j : good s -> good (snd (commit_race s i j)).
+Proof.
+  intros G. unfold commit_race. destruct (nth_error (cos s) i) as [c|] eqn:Hc; [|exact G].
+  destruct (is_bound c && opt_eqb (tip (lbranch c)) (tip (mbranch s)) && negb (i =? j)); [|apply good_commit; exact G].
+  assert (Hps : forall p, In p (tparents c) -> p < length (graph s)).
+  { destruct G as [_ [_ [_ F]]]. apply (Forall_nth _ _ _ _ F Hc). }
+  pose proof (good_extend s (tparents c) G Hps) as G0.
+  set (s0 := mkS (graph s ++ [tparents c]) (mbranch s) (cos s)) in *.
+  pose proof (good_commit s0 j false None G0) as G1.
+  pose proof (commit_graph_len s0 j false None) as L.
+  set (s1 := snd (commit s0 j false None)) in *.
+  assert (Ln : length (graph s) < length (graph s1)).
+  { subst s0. cbn [graph] in L. rewrite app_length in L. cbn [length] in L. lia. }
+  cbn zeta. destruct (negb (opt_eqb _ _) && is_some _); cbn [snd]; [exact G1|].
+  apply good_writes; [exact G1|].
+  assert (T : forall r, tip_lt (length (graph s1)) (mkB (Some (length (graph s))) r)).
+  { intros r t Ht. cbn in Ht. injection Ht as <-. exact Ln. }
+  constructor; [apply T|]. constructor; [apply T|]. constructor; [|constructor].
+  cbn. intros p [<-|[]]. exact Ln.
+Qed.
+
+(* the look at the master under its lock: when the other committer has moved the
+   master (to a revision the tree is not based on), the commit is refused with
+   OutOfDateTree, keeps the other committer's state and writes nothing *)
+Theorem race_refused s i j c x :
+  nth_error (cos s) i = Some c -> is_bound c = true ->
+  tip (lbranch c) = tip (mbranch s) -> i <> j ->
+  let s1 := snd (commit (mkS (graph s ++ [tparents c]) (mbranch s) (cos s)) j false None) in
+  tip (mbranch s1) = Some x -> hd_error (tparents c) <> Some x ->
+  commit_race s i j = (Fail OutOfDateTree, s1).
+Proof.
+  intros Hc B E Hij s1 Hx Hne. unfold commit_race. rewrite Hc, B.
+  assert (E' : opt_eqb (tip (lbranch c)) (tip (mbranch s)) = true) by (apply opt_eqb_spec; exact E).
+  apply Nat.eqb_neq in Hij. rewrite E', Hij. cbn [andb negb]. cbn zeta. fold s1. rewrite Hx.
+  assert (X : opt_eqb (Some x) (hd_error (tparents c)) = false) by (apply opt_eqb_false; congruence).
+  rewrite X. reflexivity.
+Qed.
+
+(* and when it is not refused the master was (still) where the tree is based *)
+Theorem race_done_based s i j c s' :
+  nth_error (cos s) i = Some c -> is_bound c = true ->
+  tip (lbranch c) = tip (mbranch s) -> i <> j ->
+  commit_race s i j = (Done, s') ->
+  let s1 := snd (commit (mkS (graph s ++ [tparents c]) (mbranch s) (cos s)) j false None) in
+  (tip (mbranch s1) = None \/ tip (mbranch s1) = hd_error (tparents c)) /\
+  tip (mbranch s') = Some (length (graph s)).
+Proof.
+  intros Hc B E Hij. unfold commit_race. rewrite Hc, B.
+  assert (E' : opt_eqb (tip (lbranch c)) (tip (mbranch s)) = true) by (apply opt_eqb_spec; exact E).
+  apply Nat.eqb_neq in Hij. rewrite E', Hij. cbn [andb negb]. cbn zeta.
+  set (s1 := snd (commit _ j false None)).
+  destruct (opt_eqb (tip (mbranch s1)) (hd_error (tparents c))) eqn:E2; cbn [negb andb].
+  - intros H; injection H as <-. split; [right; apply opt_eqb_spec; exact E2 | reflexivity].
+  - destruct (tip (mbranch s1)) eqn:Et; cbn [is_some]; [discriminate|].
+    intros H; injection H as <-. split; [left; reflexivity | reflexivity].
+Qed.
+
 Lemma good_step s o : good s -> good (snd (step s o)).
 Proof.
   destruct o; cbn [step]; [apply good_commit | apply good_update | apply good_pull
-                          | apply good_set_bound | apply good_set_bound].
+                          | apply good_set_bound | apply good_set_bound | apply good_commit_race].
 Qed.
 
 Lemma good_init kinds root : good (init kinds root).
@@ -1088,7 +1161,7 @@ Definition behind (s : sys) : Prop := Forall (behind_co (graph s) (mbranch s)) (
 
 (* operations other than --local commits and unbind *)
 Definition nolocal (o : op) : bool :=
-  match o with Commit _ loc _ => negb loc | Unbind _ => false | _ => true end.
+  match o with Commit _ loc _ => negb loc | Unbind _ => false | CommitRace _ _ => false | _ => true end.
 
 Lemma behind_wmaster s b : wf_dag (graph s) = true -> behind s ->
   leo (graph s) (tip (mbranch s)) (tip b) -> behind (apply_write s (WMaster b)).
@@ -1253,11 +1326,12 @@ Qed.
 
 Lemma behind_step s o : good s -> behind s -> nolocal o = true -> behind (snd (step s o)).
 Proof.
-  intros G B N. destruct o as [i loc f|i|i sr back|i|i]; cbn [step nolocal] in *.
+  intros G B N. destruct o as [i loc f|i|i sr back|i|i|i j]; cbn [step nolocal] in *.
   - destruct loc; [discriminate|]. apply behind_commit; assumption.
   - apply behind_update; assumption.
   - apply behind_pull; assumption.
   - apply behind_bind; assumption.
+  - discriminate.
   - discriminate.
 Qed.
 
